@@ -14,7 +14,7 @@ META = {
 
 def run(ctx):
     ctx.cov['rule'] = ('one case = one program run on the real interpreter; evaluations = statement boundaries validated by TLC; distinct = distinct program texts')
-    interp_check.run_model_families(ctx, ['err'])
+    interp_check.run_model_families(ctx, ['err', 'data'])
     st = interp_check.run_family(ctx, {'ctl', 'err', 'stray', 'data'}, ctx.pick(220, 5000), size=12,
                                  focus={'err': 30, 'for': 10, 'gosub': 10, 'simple': 20, 'data': 4}, direct=0.6)
     ends = st['ended']
